@@ -423,6 +423,25 @@ func genC13(t *rapid.T) c13Case {
 				v = TV{K: "list", L: []TV{{K: "i64", I: 1}}}
 			}
 		}
+		if c.AllowNested {
+			// the offending value may sit below lists and maps (an error raised while storing a list element or a
+			// nested map entry has to reach the caller like one raised at the top level); an entry with an empty
+			// key, which bbolt refuses, serves as a second kind of unstorable value
+			if rapid.IntRange(0, 3).Draw(t, "emptyKeyInstead") == 0 {
+				v = TV{K: "map", M: []KV{{Key: []byte("host"), V: TV{K: "s", B: []byte("b")}}, {Key: []byte(""), V: TV{K: "i64", I: 2}}}}
+			}
+			for d, n := 0, rapid.IntRange(0, 3).Draw(t, "wrapDepth"); d < n; d++ {
+				if rapid.Bool().Draw(t, fmt.Sprintf("wrapList%d", d)) {
+					elems := []TV{{K: "i64", I: int64(d)}, v}
+					if rapid.Bool().Draw(t, fmt.Sprintf("wrapFirst%d", d)) {
+						elems = []TV{v, {K: "s", B: []byte("after")}}
+					}
+					v = TV{K: "list", L: elems}
+				} else {
+					v = TV{K: "map", M: []KV{{Key: []byte("in"), V: v}, {Key: []byte("z"), V: TV{K: "s", B: []byte("after")}}}}
+				}
+			}
+		}
 		c.Fields = []c13Field{{Name: "tags", V: TV{K: "map", M: []KV{{Key: []byte("good"), V: TV{K: "s", B: []byte("v")}}, {Key: []byte("k"), V: v}}}}}
 		return c
 	}
